@@ -19,7 +19,11 @@ package PKGNAME
 //   - plain: the delivered sequence is a subsequence of the sequence handed to Node.HandlePublication (order kept);
 //   - delta frames reconstruct the published payload (fossil, Protobuf connections only);
 //   - whenever the medium broadcast the insufficient-state sentinel, every positioned subscription that was established
-//     at that moment has ended by the end of the run.
+//     at that moment ends within one broadcast delay (+2 s);
+//   - shared position sync: when the periodic check ends one positioned subscription (insufficient state at an instant
+//     without any hand-over), every other established positioned subscription ends with it;
+//   - after a final quiet period of 3 check delays + 4 ticks no positioned subscription that is behind the stream top
+//     survives (with shared sync: asserted only when all established positioned subscriptions are behind).
 
 import (
 	"context"
